@@ -12,26 +12,26 @@ package header
 
 //@ func getSatellites
 //@ ensures fresh(result) && len(result) <= 64
-//@ ensures[C04] len(result) == cnthi(satelliteMask, 64, 64)
+//@ ensures len(result) == cnthi(satelliteMask, 64, 64)
 //@ ensures[C04] forall(j, 0, len(result), 1 <= result[j] && result[j] <= 64 && bitof(satelliteMask, 64 - result[j]) == 1)
 //@ ensures[C04] forall(j, 0, len(result) - 1, result[j] < result[j+1])
 //@ ensures[C04b] forall(s, 1, 65, bitof(satelliteMask, 64 - s) == 1 ==> cnthi(satelliteMask, 64, s-1) < len(result) && result[cnthi(satelliteMask, 64, s-1)] == s)
 //@ loop 1
 //@ invariant[C04b] forall(s, 1, satNum, bitof(satelliteMask, 64 - s) == 1 ==> cnthi(satelliteMask, 64, s-1) < len(satellites) && satellites[cnthi(satelliteMask, 64, s-1)] == s)
 //@ invariant 1 <= satNum && satNum <= 65 && len(satellites) <= satNum - 1 && fresh(satellites)
-//@ invariant[C04] len(satellites) == cnthi(satelliteMask, 64, satNum - 1)
+//@ invariant len(satellites) == cnthi(satelliteMask, 64, satNum - 1)
 //@ invariant[C04] forall(j, 0, len(satellites), 1 <= satellites[j] && satellites[j] < satNum && bitof(satelliteMask, 64 - satellites[j]) == 1)
 //@ invariant[C04] forall(j, 0, len(satellites) - 1, satellites[j] < satellites[j+1])
 //@ decreases 65 - satNum
 
 //@ func getSignals
 //@ ensures fresh(result) && len(result) <= 32
-//@ ensures[C04] len(result) == cnthi(signalMask, 32, 32)
+//@ ensures len(result) == cnthi(signalMask, 32, 32)
 //@ ensures[C04] forall(j, 0, len(result), 1 <= result[j] && result[j] <= 32 && bitof(signalMask, 32 - result[j]) == 1)
 //@ ensures[C04] forall(j, 0, len(result) - 1, result[j] < result[j+1])
 //@ loop 1
 //@ invariant 1 <= sigNum && sigNum <= 33 && len(signals) <= sigNum - 1 && fresh(signals)
-//@ invariant[C04] len(signals) == cnthi(signalMask, 32, sigNum - 1)
+//@ invariant len(signals) == cnthi(signalMask, 32, sigNum - 1)
 //@ invariant[C04] forall(j, 0, len(signals), 1 <= signals[j] && signals[j] < sigNum && bitof(signalMask, 32 - signals[j]) == 1)
 //@ invariant[C04] forall(j, 0, len(signals) - 1, signals[j] < signals[j+1])
 //@ decreases 33 - sigNum
@@ -56,3 +56,51 @@ package header
 //@ invariant[C04] forall(k, 0, i, RowOK(contents(cells[k]), offof(cells[k]), cellMask, total - 1 - k*numberOfSignalTypes, numberOfSignalTypes))
 //@ invariant[C04] RowOK(contents(row), offof(row), cellMask, total - 1 - i*numberOfSignalTypes, j)
 //@ decreases numberOfSignalTypes - j
+
+//@ func New
+//@ let nsat = cnthi(satelliteMask, 64, 64)
+//@ ensures result != nil && fresh(result) && HeaderWF(result)
+//@ ensures 0 <= result.NumSignalCells && result.NumSignalCells <= len(result.Satellites) * len(result.Signals)
+//@ ensures[C04,C20] result.MessageType == messageType && result.StationID == stationID && result.Timestamp == timestamp && result.MultipleMessage == multipleMessage
+//@ ensures[C04] result.IssueOfDataStation == issueOfDataStation && result.SessionTransmissionTime == sessionTransmissionTime && result.ClockSteeringIndicator == clockSteeringIndicator && result.ExternalClockSteeringIndicator == externalClockSteeringIndicator
+//@ ensures[C04] result.GNSSDivergenceFreeSmoothingIndicator == gnssDivergenceFreeSmoothingIndicator && result.GNSSSmoothingInterval == gnssSmoothingInterval
+//@ ensures[C04] result.SatelliteMask == satelliteMask && result.SignalMask == signalMask && result.CellMask == cellMask && result.LogLevel == logLevel
+//@ ensures len(result.Satellites) == cnthi(satelliteMask, 64, 64) && len(result.Signals) == cnthi(signalMask, 32, 32)
+//@ ensures[C04] forall(k, 0, len(result.Cells), RowOK(contents(result.Cells[k]), offof(result.Cells[k]), cellMask, len(result.Satellites)*len(result.Signals) - 1 - k*len(result.Signals), len(result.Signals)))
+//@ ensures[C04] result.NumSignalCells == cnthi(cellMask, len(result.Satellites)*len(result.Signals), len(result.Satellites)*len(result.Signals))
+//@ loop 1
+//@ invariant 0 - 1 <= rangeindex && rangeindex <= len(cells) - 1 && (len(cells) == 0 || rangeindex < len(cells))
+//@ invariant 0 <= header.NumSignalCells && header.NumSignalCells <= (rangeindex + 1) * len(signals)
+//@ invariant[C04] header.NumSignalCells == cnthi(cellMask, len(satellites)*len(signals), (rangeindex + 1) * len(signals))
+//@ decreases len(cells) - rangeindex
+//@ loop 2
+//@ invariant 0 - 1 <= rangeindex && rangeindex <= len(signals) - 1 && 0 <= i && i < len(cells)
+//@ invariant 0 <= header.NumSignalCells && header.NumSignalCells <= i * len(signals) + rangeindex + 1
+//@ invariant[C04] RowOK(contents(cells[i]), offof(cells[i]), cellMask, len(satellites)*len(signals) - 1 - i*len(signals), len(signals)) && len(cells[i]) == len(signals)
+//@ invariant[C04] header.NumSignalCells == cnthi(cellMask, len(satellites)*len(signals), i * len(signals) + rangeindex + 1)
+//@ decreases len(signals) - rangeindex
+
+//@ func getMSMType
+//@ ensures[C04,C20] (r2 == nil) == (len(bitStream) >= 8 && isMSM(bits(bitStream, 24, 12)))
+//@ ensures r2 == nil ==> r0 == bits(bitStream, 24, 12) && r1 == 36 && len(bitStream) >= 8
+//@ ensures[C20] r2 == nil ==> isMSM(r0)
+
+// The MSM header: fixed fields at bit 24 + {0,12,24,54,55,58,65,67,69,70,73,137} with widths
+// 12,12,30,1,3,7,2,2,1,3,64,32, then the cell mask of nsat*nsig bits at bit 193.
+//@ define hdrSatMask(s) = bits(s, 97, 64)
+//@ define hdrSigMask(s) = bits(s, 161, 32)
+//@ define hdrX(s) = cnthi(hdrSatMask(s), 64, 64) * cnthi(hdrSigMask(s), 32, 32)
+//@ func GetMSMHeader
+//@ ensures r2 == nil ==> r0 != nil && fresh(r0) && HeaderWF(r0) && r1 == 193 + len(r0.Satellites)*len(r0.Signals) && r1 + 24 <= 8*len(bitStream) && len(r0.Satellites)*len(r0.Signals) <= 64
+//@ ensures r2 == nil ==> 0 <= r0.NumSignalCells && r0.NumSignalCells <= 64
+//@ ensures[C04] 8*(len(bitStream) - 6) >= 169 && isMSM(bits(bitStream, 24, 12)) && hdrX(bitStream) <= 64 && 8*len(bitStream) >= 217 + hdrX(bitStream) ==> r2 == nil
+//@ ensures[C04] r2 == nil ==> 8*(len(bitStream) - 6) >= 169 && isMSM(bits(bitStream, 24, 12))
+//@ ensures[C04,C20] r2 == nil ==> r0.MessageType == bits(bitStream, 24, 12) && r0.StationID == bits(bitStream, 36, 12) && r0.Timestamp == bits(bitStream, 48, 30) && r0.MultipleMessage == (bits(bitStream, 78, 1) == 1)
+//@ ensures[C04] r2 == nil ==> r0.IssueOfDataStation == bits(bitStream, 79, 3) && r0.SessionTransmissionTime == bits(bitStream, 82, 7) && r0.ClockSteeringIndicator == bits(bitStream, 89, 2) && r0.ExternalClockSteeringIndicator == bits(bitStream, 91, 2)
+//@ ensures[C04] r2 == nil ==> r0.GNSSDivergenceFreeSmoothingIndicator == (bits(bitStream, 93, 1) == 1) && r0.GNSSSmoothingInterval == bits(bitStream, 94, 3)
+//@ ensures[C04] r2 == nil ==> r0.SatelliteMask == hdrSatMask(bitStream) && r0.SignalMask == hdrSigMask(bitStream) && r0.CellMask == bits(bitStream, 193, len(r0.Satellites)*len(r0.Signals))
+//@ ensures[C04] r2 == nil ==> len(r0.Satellites) == cnthi(r0.SatelliteMask, 64, 64) && len(r0.Signals) == cnthi(r0.SignalMask, 32, 32)
+//@ ensures[C04] r2 == nil ==> forall(j, 0, len(r0.Satellites), 1 <= r0.Satellites[j] && r0.Satellites[j] <= 64 && bitof(r0.SatelliteMask, 64 - r0.Satellites[j]) == 1) && forall(j, 0, len(r0.Satellites) - 1, r0.Satellites[j] < r0.Satellites[j+1])
+//@ ensures[C04] r2 == nil ==> forall(j, 0, len(r0.Signals), 1 <= r0.Signals[j] && r0.Signals[j] <= 32 && bitof(r0.SignalMask, 32 - r0.Signals[j]) == 1) && forall(j, 0, len(r0.Signals) - 1, r0.Signals[j] < r0.Signals[j+1])
+//@ ensures[C04] r2 == nil ==> forall(k, 0, len(r0.Cells), RowOK(contents(r0.Cells[k]), offof(r0.Cells[k]), r0.CellMask, len(r0.Satellites)*len(r0.Signals) - 1 - k*len(r0.Signals), len(r0.Signals)))
+//@ ensures[C04] r2 == nil ==> r0.NumSignalCells == cnthi(r0.CellMask, len(r0.Satellites)*len(r0.Signals), len(r0.Satellites)*len(r0.Signals))
